@@ -196,7 +196,13 @@ class BaseStorage(UndoLogCompatible):
 
             user = transaction.user
             desc = transaction.description
-            ext = transaction.extension_bytes
+            try:
+                ext = transaction.extension_bytes
+            except AttributeError:
+                # A transaction record of a storage that does not keep the
+                # serialized extension (MappingStorage) is being copied.
+                ext = TransactionMetaData(
+                    extension=transaction.extension).extension_bytes
 
             self._ude = user, desc, ext
 
